@@ -38,9 +38,10 @@ def main(table_path, out_path):
                 continue
             got = [int(round(i.genome[0] / 0.5)) for i in sel]
             res[maximize] = got
-            if got != c["expect"] and len(viol) < 300:
-                viol.append({"clause": "C13_R5SSelection", "signature": sig, "detail": {"got": got, "expected": c["expect"]}})
-        if len(res) == 2 and res[False] != res[True] and len(viol) < 300:
+            if got != c["expect"] and sum(1 for v in viol if v["clause"] == "Info_R5SModel") < 100:
+                # R5S' own algorithm is not a listed property (C13 asks for direction symmetry, checked below)
+                viol.append({"clause": "Info_R5SModel", "signature": sig, "detail": {"got": got, "expected": c["expect"]}})
+        if len(res) == 2 and res[False] != res[True] and sum(1 for v in viol if v["clause"] == "C13_R5SDirectionSymmetry") < 150:
             viol.append({"clause": "C13_R5SDirectionSymmetry", "signature": f"pop(best first)={c['pop']}",
                          "detail": {"minimize": res[False], "maximize": res[True]}})
         if len(samples) < 3 and li % 1500 == 7:
